@@ -496,6 +496,7 @@ def _worker(args):
 
 
 UNIT_PATHS = 1
+_WATCH = set(json.loads(os.environ.get("VERIF_WATCH_CLAUSES", "[]")))
 
 
 def explore_entry(eng, entry, inv, tier, t0, prefix=(), limit=None):
@@ -537,6 +538,11 @@ def explore_entry(eng, entry, inv, tier, t0, prefix=(), limit=None):
             print("   path", dec, "->", outcome, "| events:", [(e[0], e[1][0] if e[1] else None) + ((e[1][3], e[1][4]) if e[0] == "input" and len(e[1]) > 4 else ()) for e in ctx.trace][:40], flush=True)
         for cut, ks in (v or {}).items():
             violated_all.setdefault(cut, set()).update(ks)
+            if _WATCH and cut == "entry":
+                hit = [k for k in ks if k in _WATCH]
+                if hit:
+                    print(f"   WATCH {entry.name} path {dec} -> {outcome}: " + "; ".join(clause_text(clause_from_key(k)) for k in hit)
+                          + "\n      events: " + str([(e[0], e[1][0] if e[1] else None) + ((e[1][3], e[1][4]) if e[0] == "input" and len(e[1]) > 4 else ()) for e in ctx.trace][:60]), flush=True)
             if os.environ.get("VERIF_DEBUG_VIOL") and cut == os.environ.get("VERIF_DEBUG_VIOL"):
                 real = [k for k in ks if k in set(inv.get(cut, []))]
                 if real:
@@ -645,8 +651,9 @@ def run_engine(factory_mod, factory_name, tier="quick", jobs=16, max_rounds=40, 
     cl = Cluster(eng.make_spec(), reg)
     universe = [clause_key(c) for c in cl.all_clauses()]
     cached = None
-    if os.path.exists(eng.cache_file) and not infer:
-        with open(eng.cache_file) as f:
+    cfile = os.environ.get("VERIF_INV_OVERRIDE") or eng.cache_file        # debugging aid (tools/m_why.py)
+    if os.path.exists(cfile) and not infer:
+        with open(cfile) as f:
             cached = json.load(f)
     t0 = time.time()
     if cached is not None:
